@@ -324,5 +324,6 @@ def main(chk):
         viol.append(("a function of an imported module sees the scope of the function that imported it: exit %s, stderr %r" % (mo["code"], mo["err"][:300]),
                      {"harness": "runtest", "files": mfiles, "got": mo, "want": "exit 0"}, "C03:module-scope"))
 
+    chk.cov["rule"] += " Added after seeded round 7: an iterator literal nested in another one, `new` without arguments, functions of an imported module called from inside functions (files, harness runtest in file mode)."
     return pancore.conclude(chk, ok, broken, "Props/C03.v", res, viol, model_only, "C03",
                             "Core.Interp vs evaluator/{eval_funccall,eval_func,eval_assign,eval_ident,eval_args,eval_kwargs}.go, object/env.go")
